@@ -163,6 +163,19 @@ CLAIMED = {
         "metamorphic property-based testing (Hypothesis) + differential runs across PYTHONHASHSEED values in fresh interpreters",
         "3/C08",
     ),
+    "C20": (
+        "For each documented precondition (ballot without ranking, tied position for the STV family, non-integer "
+        "weight for PluralityVeto / random_transfer directly and through STV, missing scores, m outside 1..n, "
+        "Alaska stage sizes, negative / increasing score vector, non-positive or inconsistent rating limits, "
+        "unknown quota, generator proportion / cohesion sums, bloc-name mismatches, overlapping intervals, "
+        "duplicate candidates) a valid request is generated together with exactly one violation (smallest margin "
+        "and gross, at a generated ballot index).  Oracle: the documented exception type escapes, no round was "
+        "recorded, and the unperturbed request and the accepted boundary values succeed.",
+        "pydantic's ValidationError counts as ValueError; acceptance runs use random tiebreaks and complete "
+        "ballots; Alaska acceptance runs that hit finding F14 are excluded and counted.",
+        "property-based testing (Hypothesis) with single-fault injection into valid requests",
+        "3/C20",
+    ),
 }
 
 PENDING_REASON = "check not built yet in this session; the design (DESIGN.md section 3) claims it and it will be registered once it is quiet on the unchanged tree and catches its mutants"
